@@ -110,13 +110,13 @@ func TestVerifC21Cluster(t *testing.T) {
 			if _, err := c[0].API.CreateIndex(ctx, index, pilosa.IndexOptions{}); err != nil {
 				t.Fatal(err)
 			}
-			if _, err := c[0].API.CreateField(ctx, index, "f", pilosa.OptFieldTypeSet(pilosa.CacheTypeRanked, 100)); err != nil {
+			if _, err := vrcCreateField(c[0].API, index, "f", pilosa.OptFieldTypeSet(pilosa.CacheTypeRanked, 100)); err != nil {
 				t.Fatal(err)
 			}
-			if _, err := c[0].API.CreateField(ctx, index, "t", pilosa.OptFieldTypeTime("YM")); err != nil {
+			if _, err := vrcCreateField(c[0].API, index, "t", pilosa.OptFieldTypeTime("YM")); err != nil {
 				t.Fatal(err)
 			}
-			if _, err := c[0].API.CreateField(ctx, index, "v", pilosa.OptFieldTypeInt(-100, 1000)); err != nil {
+			if _, err := vrcCreateField(c[0].API, index, "v", pilosa.OptFieldTypeInt(-100, 1000)); err != nil {
 				t.Fatal(err)
 			}
 		}
